@@ -3,6 +3,7 @@
 # (patch.diff, tests/demo_*.rs, NOTES.md), store it under seeded/<name>, run every quick check
 # against /repo with the change applied, and undo it.
 set -u
+ROOT=$(cd "$(dirname "$(readlink -f "$0")")/.." && pwd)
 PID=$1; NAME=${2:-$PID}; WT=/tmp/wt_$PID; OUT=/verif/seeded/$NAME
 export CARGO_NET_OFFLINE=true
 mkdir -p $OUT
@@ -24,7 +25,7 @@ mv /tmp/_demo_$PID.rs $demo
 echo "confirm: suite_with_change_rc=$a demo_with_change_rc=$b demo_without_change_rc=$c" | tee -a $log
 if [ $a -ne 0 ] || [ $b -eq 0 ] || [ $c -ne 0 ]; then echo "NOT CONFIRMED" | tee -a $log; exit 4; fi
 # run the checks against /repo with the change applied
-cd $(dirname $(readlink -f $0))/..
+cd $ROOT
 git -C /repo apply $OUT/patch.diff || { echo "patch does not apply to /repo"; exit 5; }
 res=$OUT/checks.txt; : > $res
 for p in ${CHECKS:-C01 C02 C03 C04 C05 C06 C07 C08 C09 C10 C11 C12 C13 C14 C15 C16}; do
